@@ -618,6 +618,9 @@ func (r *renderer) computed(g gcfg, v *model.V) (src, path string) {
 		n := rapid.IntRange(1, len(relHeading)-1).Draw(t, "nproj")
 		sub := rapid.Permutation(relHeading).Draw(t, "projattrs")[:n]
 		proj := model.MapSet(v, func(e *model.V) *model.V { return model.Project(e, sub) })
+		if hasPinnedSugarRow(proj) {
+			return "(let v = " + r.lit(v) + "; v)", "let"
+		}
 		if chance(t, "projleft", 60) {
 			return "(" + r.lit(proj) + " <&> " + r.lit(v) + ")", path
 		}
@@ -630,6 +633,9 @@ func (r *renderer) computed(g gcfg, v *model.V) (src, path string) {
 		right := append(append([]string{}, splitKey...), splitRest[cut:]...)
 		pa := model.MapSet(v, func(e *model.V) *model.V { return model.Project(e, left) })
 		pb := model.MapSet(v, func(e *model.V) *model.V { return model.Project(e, right) })
+		if hasPinnedSugarRow(pa) || hasPinnedSugarRow(pb) {
+			return "(let v = " + r.lit(v) + "; v)", "let"
+		}
 		return "(" + r.lit(pa) + " <&> " + r.lit(pb) + ")", path
 	case "seqmap-id":
 		return "(" + r.lit(v) + " >> .)", path
@@ -871,6 +877,17 @@ func pinnedSugarLiteral(names []string, vals []*model.V) bool {
 		return false
 	}
 	return !at.IsNum() || (attr != "@item" && !x.IsNum())
+}
+
+// hasPinnedSugarRow: a projection of the rows would have to be written with a
+// tuple literal that panics by design (see pinnedSugarLiteral).
+func hasPinnedSugarRow(rows *model.V) bool {
+	for _, e := range rows.Elems {
+		if e.K == model.KTup && pinnedSugarLiteral(e.Names, e.Vals) {
+			return true
+		}
+	}
+	return false
 }
 
 func inNamesList(names []string, n string) bool {
